@@ -17,7 +17,7 @@ Per run:
   (iv) input freezing / aliasing on every evaluated call; observed protocol of every integrator call is checked against
         the extracted one inside Coq (Model/MemoCheck.proto_check).
 """
-import copy, json, os, hashlib
+import copy, json, os, hashlib, time
 from concurrent.futures import ThreadPoolExecutor
 from harness import lib
 from harness.lib import b
@@ -316,6 +316,8 @@ class Catalogue:
             s['fs2'] = copy.deepcopy(fs); s['fs2']['vals'] = list(reversed(fs['vals']))
         elif m in ('fold', 'S', 'sum', 'log') and rng.random() < 0.3:
             fs['fold'] = (m != 'fold') and rng.random() < 0.5
+        if m in ('S', 'sum', 'log', 'project', 'marginalize') and not fs.get('fold') and rng.random() < 0.6:
+            fs['mask_corners'] = False
         return s
 
     def g_model(self):
@@ -343,6 +345,8 @@ class Catalogue:
         pts = rng.choice([p for (dd, p) in self.phis if dd == d])
         s = {'op': 'from_phi', 'd': d, 'pts': pts, 'phi': copy.deepcopy(rng.choice(self.phis[(d, pts)])),
              'ns': [rng.choice([2, 3, 4]) if d <= 3 else 2 for _ in range(d)]}
+        if rng.random() < 0.3:
+            s['grid'] = 'lin'
         r = rng.random()
         if r < 0.2 and d <= 4:
             s['force'] = True
@@ -361,6 +365,8 @@ class Catalogue:
         if d > 1 and rng.random() < 0.6:
             s['m'] = [[0 if i == j else rng.choice([0, 0.5, 1.0]) for j in range(d)] for i in range(d)]
         s['nonconst'] = (rng.random() < 0.4) if nonconst is None else nonconst
+        if rng.random() < 0.25:
+            s['grid'] = 'lin'
         if (rng.random() < 0.15) if T0 is None else T0:
             s['T'] = 0
         elif d > 1 and rng.random() < 0.15 and not s.get('m'):
@@ -522,17 +528,51 @@ def short(spec):
 
 # ------------------------------------------------------------------------------------------------------------------
 
-def run_many(payloads, seeds=None):
-    """payloads: list of dicts; returns list of results (or {'crash': text}) in order; JOBS fresh interpreters at a time"""
-    def one(i):
-        env = dict(ENV)
-        env['PYTHONHASHSEED'] = str(seeds[i] if seeds else 0)
+def run_many(payloads, seeds=None, exec_each=False):
+    """payloads: list of dicts; returns the results (or {'crash': text}) in order.
+    Default: one interpreter per hash seed imports dadi and does nothing else; every payload runs in its own fork of it
+    (so it starts from the state of a freshly started interpreter).  exec_each=True: a newly exec'ed interpreter per payload."""
+    if not payloads:
+        return []
+    seeds = list(seeds) if seeds else [0] * len(payloads)
+    def env_for(sd):
+        env = dict(ENV); env['PYTHONHASHSEED'] = str(sd)
+        return env
+    if exec_each:
+        def one(i):
+            try:
+                return lib.run_impl('c20_impl.py', payloads[i], timeout=900, env_extra=env_for(seeds[i]))
+            except Exception as e:
+                return {'crash': str(e)[-1500:]}
+        with ThreadPoolExecutor(max_workers=JOBS) as ex:
+            return list(ex.map(one, range(len(payloads))))
+    groups = {}
+    for i, sd in enumerate(seeds):
+        groups.setdefault(sd, []).append(i)
+    # JOBS interpreters in all, shared out in proportion to the number of payloads per hash seed
+    units = []
+    tot = len(payloads)
+    for sd, idx in groups.items():
+        nsplit = max(1, min(len(idx), int(round(JOBS * len(idx) / float(tot)))))
+        for k in range(nsplit):
+            part = idx[k::nsplit]
+            if part:
+                units.append((sd, part, 1))
+    if len(units) < JOBS:
+        units = [(sd, part, max(1, JOBS // len(units))) for sd, part, _ in units]
+    out = [None] * len(payloads)
+    def unit(u):
+        sd, part, par = u
         try:
-            return lib.run_impl('c20_impl.py', payloads[i], timeout=900, env_extra=env)
+            r = lib.run_impl('c20_impl.py', {'mode': 'batch', 'jobs': [payloads[i] for i in part], 'par': par}, timeout=3000, env_extra=env_for(sd))
+            return r['results']
         except Exception as e:
-            return {'crash': str(e)[-1500:]}
+            return [{'crash': str(e)[-1500:]}] * len(part)
     with ThreadPoolExecutor(max_workers=JOBS) as ex:
-        return list(ex.map(one, range(len(payloads))))
+        for u, res in zip(units, ex.map(unit, units)):
+            for i, r in zip(u[1], res):
+                out[i] = r
+    return out
 
 
 def op_family(spec):
@@ -545,6 +585,8 @@ def op_family(spec):
         return 'Godambe.' + {'FIM': 'FIM_uncert', 'GIM': 'GIM_uncert', 'LRT': 'LRT_adjust'}[spec['f']]
     if spec['op'] == 'sp':
         return 'Spectrum.' + spec['m']
+    if spec['op'] == 'demes':
+        return 'Spectrum.from_demes(%s)' % (spec.get('yaml') or 'graph built with demes.Builder: ' + spec.get('builder', ''))
     return spec['op'] + ':' + str(spec.get('kind') or spec.get('f') or spec.get('k') or spec.get('yaml') or '')
 
 
@@ -553,6 +595,7 @@ class Reporter:
     def __init__(self, ctx):
         self.ctx = ctx
         self.seen = {}
+        self.integ = {}
 
     def report(self, key, what, data, unkeyed_id=None):
         k = key if key is not None else ('?' + str(unkeyed_id))
@@ -567,10 +610,20 @@ class Reporter:
 def freeze_findings(rep, spec, rec, where):
     """argument modified / result aliases argument, from one evaluated call record"""
     fam = op_family(spec)
+    if spec['op'] == 'integ' and (rec.get('mutated') in (['phi'], []) ) and (rec.get('mutated') or rec.get('aliased') or rec.get('result_is_arg')):
+        # collected per integrator, reported once with every symptom (flush_integrators)
+        d = rep.integ.setdefault(INTEG_NAME[spec['d']], {})
+        tz = spec['T'] - spec.get('initial_t', 0) == 0
+        if rec.get('mutated') and 'mut' not in d:
+            d['mut'] = spec
+        if (rec.get('aliased') or rec.get('result_is_arg')) and not tz and 'alias' not in d:
+            d['alias'] = spec
+        if rec.get('result_is_arg') and tz and 't0' not in d:
+            d['t0'] = spec
+        rep.ctx.count('violation:' + K_INPLACE % INTEG_NAME[spec['d']])
+        return
     if rec.get('mutated'):
-        if spec['op'] == 'integ' and rec['mutated'] == ['phi']:
-            key = K_INPLACE % INTEG_NAME[spec['d']]
-        elif spec['op'] == 'opt' and spec['f'] == 'perturb' and set(rec['mutated']) <= {'lower_bound', 'upper_bound'}:
+        if spec['op'] == 'opt' and spec['f'] == 'perturb' and set(rec['mutated']) <= {'lower_bound', 'upper_bound'}:
             key = K_PERTURB
         else:
             key = None
@@ -584,10 +637,41 @@ def freeze_findings(rep, spec, rec, where):
                    {'kind': 'freeze', 'call': spec, 'observed': {'mutated': rec['mutated'], 'detail': {k: v for k, v in det.items() if k != 'phi'}}},
                    unkeyed_id='mut:' + fam)
     if rec.get('aliased') or rec.get('result_is_arg'):
-        key = K_INPLACE % INTEG_NAME[spec['d']] if spec['op'] == 'integ' else None
-        rep.report(key, '%s returns %s (T=%s) [%s]' % (fam, 'its argument itself' if rec.get('result_is_arg') else 'an array sharing memory with its argument', spec.get('T'), where),
+        rep.report(None, '%s returns %s [%s]' % (fam, 'its argument itself' if rec.get('result_is_arg') else 'an array sharing memory with its argument', where),
                    {'kind': 'freeze', 'call': spec, 'observed': {'aliased': rec.get('aliased'), 'result_is_arg': rec.get('result_is_arg')}},
                    unkeyed_id='alias:' + fam)
+
+
+def flush_integrators(rep):
+    for name, d in sorted(rep.integ.items()):
+        sym = []
+        if 'mut' in d:
+            sym.append('integrates the caller\'s phi in place (the argument is changed bit-wise)')
+        if 'alias' in d:
+            sym.append('returns the argument itself, not a fresh array')
+        if 't0' in d:
+            sym.append('returns the argument itself un-copied when T - initial_t == 0')
+        call = d.get('mut') or d.get('alias') or d.get('t0')
+        rep.report(K_INPLACE % name, 'Integration.%s %s (one_pop, two_pops, three_pops start with phi = phi.copy())' % (name, '; '.join(sym)),
+                   {'kind': 'freeze', 'call': call, 'also_T0': d.get('t0'), 'symptoms': sym})
+    rep.integ = {}
+
+
+def attribute_demes(c, seed, ref, protocols=None):
+    """a from_demes call whose value depends on the hash seed: is it the transposed view (the demes library returns the children
+    of a split in set order; the front end re-orders by transposition) reaching an integrator that does not copy?"""
+    pc = dict(c, contig_patch=True)
+    r = run_many([{'mode': 'eval', 'calls': [pc]}, {'mode': 'eval', 'calls': [pc]}], seeds=[0, seed])
+    try:
+        a, bb = r[0]['calls'][0], r[1]['calls'][0]
+        names = sorted(n for n in set(a.get('patched', []) + bb.get('patched', [])) if (protocols or {}).get(n, {}).get('kind') != 'copy')
+        if a['digest'] == bb['digest'] and names:
+            return (K_PHI_LAYOUT % names[0],
+                    ': demes returns the children of a split in set order, the front end re-orders the axes by transposition (PhiManip.reorder_pops) and hands the '
+                    'transposed VIEW to Integration.%s, whose kernels read it as C-contiguous; with the array made contiguous first the value is the same under both seeds' % names[0])
+    except Exception:
+        pass
+    return None, ''
 
 
 def memo_case_text(res):
@@ -622,7 +706,11 @@ def run(ctx):
                     'CPython releases a closure when the call that made it returns and may hand its address to the next one (Godambe allocator model)']
     if ctx.replay:
         return run_replay(ctx)
+    t0 = time.time()
+    def lap(name):
+        ctx.notes.append('phase %s done at %.1fs' % (name, time.time() - t0))
     info = translator_tie(ctx)
+    lap('translators')
     rep = Reporter(ctx)
 
     ncat = ctx.pick(80, 420)
@@ -637,7 +725,28 @@ def run(ctx):
                 cat.g_integ(d=4, nonconst=False, T0=False), cat.g_integ(d=5, nonconst=False, T0=False), cat.g_integ(d=3, nonconst=True, T0=False),
                 {'op': 'opt', 'f': 'perturb', 'params': [1.0, 2.0], 'lower': [None, 0.0625], 'upper': [16.0, None], 'seed': 1, 'fold': 1},
                 {'op': 'demes', 'builder': 'reorder4', 'sampled': ['c0', 'X'], 'sizes': [3, 3], 'pts': [8]}]
-    for s in directed + directed_lrt:
+    labels = ['YRI', 'CEU', 'CHB', 'JPT']
+    fs3 = gen_fs(rng, (3, 4, 3)); fs3['pop_ids'] = labels[:3]
+    fs4 = gen_fs(rng, (3, 3, 2, 3)); fs4['pop_ids'] = labels
+    label_calls = []
+    for fs, nd in ((fs3, 3), (fs4, 4)):
+        for ax in range(nd):
+            label_calls.append({'op': 'sp', 'm': 'marginalize', 'fs': copy.deepcopy(fs), 'a': [[ax]]})
+        label_calls.append({'op': 'sp', 'm': 'filter_pops', 'fs': copy.deepcopy(fs), 'a': [[1, nd]]})
+        label_calls.append({'op': 'sp', 'm': 'filter_pops', 'fs': copy.deepcopy(fs), 'a': [list(range(2, nd + 1))]})
+        label_calls.append({'op': 'sp', 'm': 'combine_pops', 'fs': copy.deepcopy(fs), 'a': [[1, 2]]})
+        label_calls.append({'op': 'sp', 'm': 'reorder_pops', 'fs': copy.deepcopy(fs), 'a': [list(range(nd, 0, -1))]})
+        label_calls.append({'op': 'sp', 'm': 'project', 'fs': copy.deepcopy(fs), 'a': [[1] * nd]})
+        label_calls.append({'op': 'sp', 'm': 'fold', 'fs': copy.deepcopy(fs), 'a': []})
+        label_calls.append({'op': 'sp', 'm': 'scramble_pop_ids', 'fs': copy.deepcopy(fs), 'a': []})
+    nonconst_each = [cat.g_integ(d=d, nonconst=True, T0=False) for d in (1, 2, 3, 4, 5)]
+    fsS = gen_fs(rng, (4, 3)); fsS['mask_corners'] = False
+    fsS1 = gen_fs(rng, (6,)); fsS1['mask_corners'] = False
+    label_calls += [{'op': 'sp', 'm': 'S', 'fs': fsS, 'a': []}, {'op': 'sp', 'm': 'S', 'fs': fsS1, 'a': []}, {'op': 'sp', 'm': 'Watterson_theta', 'fs': copy.deepcopy(fsS1), 'a': []}]
+    phi2 = copy.deepcopy(cat.phis[(2, 8)][0])
+    grid_calls = [{'op': 'from_phi', 'd': 2, 'pts': 8, 'phi': phi2, 'ns': [3, 3]}, {'op': 'from_phi', 'd': 2, 'pts': 8, 'phi': copy.deepcopy(phi2), 'ns': [3, 3], 'grid': 'lin'}]
+    label_calls += grid_calls
+    for s in directed + directed_lrt + label_calls + nonconst_each:
         if sig(s) not in set(sig(c) for c in calls):
             calls.append(s)
     bysig = {sig(c): c for c in calls}
@@ -650,53 +759,113 @@ def run(ctx):
         n = rng.randint(2, maxlen)
         hists.append([rng.choice(calls) for _ in range(n)])
     hists.append(list(directed_lrt))                       # the Godambe id-reuse history
+    gimseq = dict(directed_lrt[0], seq=True, p0_list=[c['p0'] for c in directed_lrt])
     hists.append(directed + directed[:3])
+    hists.append(label_calls)
+    hists.append(nonconst_each + label_calls[:4])
 
-    # ---- references: every distinct call once, in its own fresh interpreter (hash seed 0)
-    refs_payload = [{'mode': 'eval', 'calls': [c]} for c in calls]
-    refs_res = run_many(refs_payload)
+    # ---- layout cases (chosen before anything runs)
+    lay_calls = []
+    seen_l = set()
+    def want_layout(c):
+        return c['op'] in ('integ', 'from_phi', 'pm', 'll') or (c['op'] == 'sp' and not c['fs'].get('fold')) or (c['op'] == 'lp' and 'cov' in c)
+    for c in nonconst_each + calls:
+        if want_layout(c):
+            fam = (op_family(c), c.get('d'), c.get('nonconst'), c.get('force'), c.get('inb'), bool(c.get('m')), c.get('T') == 0)
+            if ctx.quick and fam in seen_l:
+                continue
+            seen_l.add(fam)
+            lay_calls.append(c)
+    lay_calls = lay_calls[:ctx.pick(60, 260)]
+    # the user-model path: reorder_pops (a transposed view) handed to an integrator, d = 2..5
+    for d in (2, 3, 4, 5):
+        pts = min(p for (dd, p) in cat.phis if dd == d)
+        o = list(range(2, d + 1)) + [1]
+        lay_calls.append({'op': 'pm', 'k': 'reorder_then_integrate', 'd': d, 'pts': pts, 'phi': copy.deepcopy(cat.phis[(d, pts)][0]), 'order': o,
+                          'nu': [0.5, 2.0, 1.0, 3.0, 1.5][:d], 'm12': 1.0, 'T': 0.0625})
+    chunks = [lay_calls[i::JOBS] for i in range(JOBS)]
+    chunks = [ch for ch in chunks if ch]
+    # ---- hash-seed sample, history plan
+    nx = ctx.pick(24, 150)
+    xs = list(calls)
+    rng.shuffle(xs)
+    xs = xs[:nx]
+    xseeds = [seeds[1 + (i % (len(seeds) - 1))] for i in range(len(xs))]
+    plan = []
+    for hi, h in enumerate(hists):
+        ss = list(seeds)
+        for k, s in enumerate(ss):
+            plan.append((hi, s, k == 0))
+    # ---- ONE round: every job in its own fork of an interpreter that has only imported dadi
+    jobs, tags, jseeds = [], [], []
+    def add(tag, payload, seed=0):
+        jobs.append(payload); tags.append(tag); jseeds.append(seed)
+    for c in calls:
+        add(('ref', sig(c)), {'mode': 'eval', 'calls': [c]})
+    add(('gimseq',), {'mode': 'eval', 'calls': [gimseq]})
+    for k, ch in enumerate(chunks):
+        add(('layout', k), {'mode': 'layout', 'calls': ch})
+    for c, s in zip(xs, xseeds):
+        add(('xseed', sig(c), s), {'mode': 'eval', 'calls': [c]}, s)
+    for hi, s, ins in plan:
+        add(('hist', hi, s), {'mode': 'eval', 'calls': hists[hi], 'instrument': ins}, s)
+    allres = dict(zip(tags, run_many(jobs, jseeds)))
+    lap('evaluation round (%d jobs)' % len(jobs))
+    ctx.checker_cmds.append('harness/impl/c20_impl.py mode=batch: every reference call / history / layout chunk in its own fork of a /venv/bin/python that has only imported the rebuilt dadi (PYTHONPATH=overlay), one interpreter group per PYTHONHASHSEED')
+
+    # ---- references: every distinct call once, from the pristine state (hash seed 0)
     ref = {}
-    for c, r in zip(calls, refs_res):
+    for c in calls:
+        r = allres[('ref', sig(c))]
         if 'crash' in r or 'build_error' in r['calls'][0]:
             ctx.obligation('reference evaluation of %s' % short(c), False, 'harness', json.dumps(r)[:400])
             continue
         rec = r['calls'][0]
         ref[sig(c)] = rec
         ctx.case(signature=None)
-        ctx.count('reference ' + ('error:' + rec['error'].split(':')[0] if rec.get('error') else 'ok'))
+        ctx.count('reference ' + ('error:' + rec['error'].split(':')[0] + ' in ' + op_family(c) if rec.get('error') else 'ok'))
         freeze_findings(rep, c, rec, 'fresh interpreter')
         if any(r['init_keys'].values()):
             ctx.obligation('module-level caches are empty after import', False, 'predicate', repr(r['init_keys']))
-    ctx.obligation('all %d distinct calls evaluated in a fresh interpreter each' % len(calls), len(ref) == len(calls), 'harness')
-    ctx.checker_cmds.append('harness/impl/c20_impl.py mode=eval, one fresh /venv/bin/python per distinct call (PYTHONPATH=overlay)')
+    ctx.obligation('all %d distinct calls evaluated from the pristine state, each in its own process' % len(calls), len(ref) == len(calls), 'harness')
+    # a fork of a just-imported interpreter stands for a newly started interpreter: checked on a sample with real exec's
+    vs = [c for c in calls if sig(c) in ref][::max(1, len(calls) // ctx.pick(6, 24))][:ctx.pick(6, 24)]
+    vres = run_many([{'mode': 'eval', 'calls': [c]} for c in vs], exec_each=True)
+    vbad = [short(c) for c, r in zip(vs, vres) if 'crash' in r or r['calls'][0]['digest'] != ref[sig(c)]['digest']]
+    ctx.obligation('a newly exec\'ed interpreter returns bitwise what the fork of a just-imported interpreter returns (%d calls)' % len(vs), not vbad, 'harness', repr(vbad)[:300])
+    lap('exec validation')
 
+    # ---- Godambe: the same analysis for six parameter vectors in one plain loop, against the six fresh-interpreter values
+    gs = allres[('gimseq',)]
+    if 'crash' in gs or 'elements' not in gs['calls'][0]:
+        ctx.obligation('Godambe sequence ran', False, 'harness', json.dumps(gs)[:400])
+    else:
+        el = gs['calls'][0]['elements']
+        wrong = [i for i, (e, c) in enumerate(zip(el, directed_lrt)) if sig(c) in ref and e != ref[sig(c)]['digest']]
+        ctx.case(signature=('gimseq',), sample={'godambe_sequence': [c['p0'] for c in directed_lrt], 'calls_differing_from_fresh': wrong})
+        o = ctx.obligation('six successive LRT_adjust calls in one process return the six fresh-interpreter values', not wrong, 'predicate', repr(wrong))
+        if wrong:
+            ctx.obligations[-1]['known_key'] = K_GODAMBE
+            rep.report(K_GODAMBE, 'Godambe.LRT_adjust called for p0 = %s one after the other: call(s) %s return the value of an EARLIER call (same nested parameter, different p0) '
+                       'instead of their fresh-interpreter value - Godambe.cache is keyed by func_ex.__hash__(), the address of a per-call closure that is reused once the closure is collected'
+                       % ([c['p0'] for c in directed_lrt], wrong), {'kind': 'gimseq', 'call': gimseq, 'singles': directed_lrt, 'wrong': wrong})
     # ---- fresh vs fresh across hash seeds
-    nx = ctx.pick(24, 150)
-    xs = [c for c in calls if sig(c) in ref]
-    rng.shuffle(xs)
-    xs = xs[:nx]
-    xseeds = [seeds[1 + (i % (len(seeds) - 1))] for i in range(len(xs))]
-    xres = run_many([{'mode': 'eval', 'calls': [c]} for c in xs], seeds=xseeds)
+    xres = [allres[('xseed', sig(c), sd)] for c, sd in zip(xs, xseeds)]
     nbad = 0
     for c, s, r in zip(xs, xseeds, xres):
+        if sig(c) not in ref:
+            continue
         ok = 'crash' not in r and r['calls'][0]['digest'] == ref[sig(c)]['digest']
         ctx.case(signature=None)
         if not ok:
             nbad += 1
-            rep.report(None, '%s evaluated in a fresh interpreter gives different values under PYTHONHASHSEED=%d and 0' % (op_family(c), s),
+            key, why = attribute_demes(c, s, ref, info['protocols']) if c['op'] == 'demes' else (None, '')
+            rep.report(key, '%s evaluated in a fresh interpreter gives different values under PYTHONHASHSEED=%d and 0%s' % (op_family(c), s, why),
                        {'kind': 'hashseed', 'call': c, 'seed': s}, unkeyed_id='hashseed:' + op_family(c))
     ctx.obligation('fresh-interpreter results identical under different hash seeds (%d calls)' % len(xs), nbad == 0, 'predicate')
 
     # ---- histories: each under its seeds; first run instrumented
-    plan = []
-    for hi, h in enumerate(hists):
-        if ctx.quick or hi < 40 or hi >= nhist:
-            ss = list(seeds)
-        else:
-            ss = [seeds[hi % len(seeds)], seeds[(hi + 3) % len(seeds)]]
-        for k, s in enumerate(ss):
-            plan.append((hi, s, k == 0))
-    pres = run_many([{'mode': 'eval', 'calls': hists[hi], 'instrument': ins} for hi, s, ins in plan], seeds=[s for _, s, _ in plan])
+    pres = [allres[('hist', hi, sd)] for hi, sd, _ in plan]
     memo_cases, memo_meta = [], {}
     mism = []
     for (hi, s, ins), r in zip(plan, pres):
@@ -715,7 +884,7 @@ def run(ctx):
             freeze_findings(rep, c, rec, 'history %d call %d' % (hi, k))
             if ins and rec.get('memo_model_mismatch'):
                 rep.report(None, 'after %s the real cache dictionaries differ from the memo machine: %s' % (op_family(c), rec['memo_model_mismatch'][0]),
-                           {'kind': 'history', 'calls': h[:k + 1], 'seed': s, 'index': k, 'instrument': True}, unkeyed_id='memo:' + op_family(c))
+                           {'kind': 'history', 'calls': h[:k + 1], 'seed': s, 'index': k, 'instrument': True}, unkeyed_id='memo:' + str(rec['memo_model_mismatch'][0][0]))
             if k > 0 and any(c2['op'] == c['op'] for c2 in h[:k]):
                 populated = True
         ctx.case(signature=('hist', [sig(c) for c in h], s) if populated else None,
@@ -731,6 +900,7 @@ def run(ctx):
             ctx.count('memo calls logged', len(r['memo_log']))
     ctx.obligation('every call of every history returns bitwise what it returns in a fresh interpreter (%d history runs, %d calls)' % (
         len(plan), sum(len(hists[hi]) for hi, _, _ in plan)), not mism, 'predicate', repr(mism[:10]))
+    flush_integrators(rep)
     # diagnose the mismatches (first per (history, index)), shrink to (earlier call, this call) where possible
     done = set()
     diag_jobs = []
@@ -756,12 +926,16 @@ def run(ctx):
         elif culprit:
             key = None
             what = '%s (call %d of history %d, hash seed %d) differs from the fresh-interpreter value; emptying %s restores it (stale or corrupted entry)' % (fam, k, hi, s, culprit)
+        elif c['op'] == 'demes' and 'crash' not in d and d['all_cleared'] != want:
+            key, why = attribute_demes(c, s, ref, info['protocols'])
+            what = '%s (call %d of history %d, hash seed %d) differs from the fresh-interpreter value under hash seed 0%s' % (fam, k, hi, s, why)
         else:
             key = K_GODAMBE if (c['op'] == 'gim' and info.get('godambe_key') == 'identity-hash' and 'crash' not in d and d['as_is'] != want and d['all_cleared'] == want) else None
             what = '%s (call %d of history %d, hash seed %d) differs from the fresh-interpreter value (not explained by one cache: %s)' % (fam, k, hi, s, json.dumps(d)[:200])
         rep.report(key, what, {'kind': 'history', 'calls': hists[hi][:k + 1], 'seed': s, 'index': k, 'fresh_digest': want, 'diagnosis': d},
                    unkeyed_id='hist:' + fam)
 
+    lap('diagnose')
     # ---- memo machine inside Coq
     header = 'From Coq Require Import ZArith NArith List.\nFrom Dadi Require Import Model.Memo Model.MemoCheck.\nImport ListNotations.'
     mres = ctx.coq_cases('memo', header, memo_cases, 'memo_check', 'exact (ids)', shard=ctx.pick(8, 20), kind='memo')
@@ -801,28 +975,9 @@ def run(ctx):
             ctx.obligation('observed behaviour of Integration.%s (%s) = Heap.integrate of its extracted protocol' % (name, short(c)), False, 'correspondence', repr(rr))
     ctx.obligation('observed input-change / aliasing of %d integrator calls = Heap.integrate of the protocol extracted from the source' % len(pmeta), nbadp == 0, 'correspondence')
 
+    lap('coq')
     # ---- layout differential
-    lay_calls = []
-    seen_l = set()
-    def want_layout(c):
-        return c['op'] in ('integ', 'from_phi', 'pm', 'll') or (c['op'] == 'sp' and not c['fs'].get('fold')) or (c['op'] == 'lp' and 'cov' in c)
-    for c in calls:
-        if want_layout(c) and sig(c) in ref and not ref[sig(c)].get('error'):
-            fam = (op_family(c), c.get('d'), c.get('nonconst'), c.get('force'), c.get('inb'), bool(c.get('m')), c.get('T') == 0)
-            if ctx.quick and fam in seen_l:
-                continue
-            seen_l.add(fam)
-            lay_calls.append(c)
-    lay_calls = lay_calls[:ctx.pick(60, 260)]
-    # the user-model path: reorder_pops (a transposed view) handed to an integrator, d = 2..5
-    for d in (2, 3, 4, 5):
-        pts = min(p for (dd, p) in cat.phis if dd == d)
-        o = list(range(2, d + 1)) + [1]
-        lay_calls.append({'op': 'pm', 'k': 'reorder_then_integrate', 'd': d, 'pts': pts, 'phi': copy.deepcopy(cat.phis[(d, pts)][0]), 'order': o,
-                          'nu': [0.5, 2.0, 1.0, 3.0, 1.5][:d], 'm12': 1.0, 'T': 0.0625})
-    chunks = [lay_calls[i::JOBS] for i in range(JOBS)]
-    chunks = [ch for ch in chunks if ch]
-    lres = run_many([{'mode': 'layout', 'calls': ch} for ch in chunks])
+    lres = [allres[('layout', k)] for k in range(len(chunks))]
     TOL = 1e-10
     nlay = nlay_bad = nbit = 0
     xx_bad = {}
@@ -898,6 +1053,10 @@ def run_replay(ctx):
         rec = r['calls'][0]
         ctx.case(sample={'call': short(inp['call']), 'mutated': rec.get('mutated'), 'aliased': rec.get('aliased')})
         freeze_findings(rep, inp['call'], rec, 'replay')
+        if inp.get('also_T0'):
+            r0 = run_many([{'mode': 'eval', 'calls': [inp['also_T0']]}])[0]
+            freeze_findings(rep, inp['also_T0'], r0['calls'][0], 'replay')
+        flush_integrators(rep)
         ctx.obligation('replayed call leaves its arguments unchanged and returns a fresh array', not ctx.violations, 'predicate')
     elif kind == 'history':
         calls = inp['calls']; k = inp['index']
@@ -916,6 +1075,15 @@ def run_replay(ctx):
         ctx.obligation('replayed call gives the contiguous-copy result for every layout of the argument', not bad, 'predicate', json.dumps(bad)[:300])
         if bad:
             ctx.violation('%s: result depends on the memory layout of %s (%s)' % (op_family(inp['call']), bad[0]['arg'], bad[0]['variant']), data=inp, key=rp.get('key'))
+    elif kind == 'gimseq':
+        singles = run_many([{'mode': 'eval', 'calls': [c]} for c in inp['singles']])
+        seq = run_many([{'mode': 'eval', 'calls': [inp['call']]}])[0]
+        el = seq['calls'][0].get('elements', [])
+        wrong = [i for i, (e, r) in enumerate(zip(el, singles)) if e != r['calls'][0]['digest']]
+        ctx.case(sample={'wrong': wrong})
+        ctx.obligation('replayed Godambe sequence returns the fresh-interpreter values', not wrong, 'predicate', repr(wrong))
+        if wrong:
+            ctx.violation('Godambe.LRT_adjust sequence: call(s) %s differ from their fresh-interpreter value (stale Godambe.cache hit)' % wrong, data=inp, key=rp.get('key'))
     elif kind == 'hashseed':
         a = run_many([{'mode': 'eval', 'calls': [inp['call']]}])[0]
         bb = run_many([{'mode': 'eval', 'calls': [inp['call']]}], seeds=[inp['seed']])[0]
